@@ -1,0 +1,313 @@
+//go:build verif
+
+package rueidis
+
+import (
+	"context"
+	"errors"
+	"net"
+	"strconv"
+	"sync/atomic"
+	"time"
+
+	"github.com/redis/rueidis/internal/cmds"
+)
+
+// Exports for the verification harness (observers obs_pool / obs_queue): constructors for the
+// unexported pool, ring and flowBuffer with tiny sizes, and access to the recorded event trace.
+// This file only adds declarations; it is compiled only with the build tag `verif`.
+
+const (
+	VerifSharedDeadID = -1 // the pool's shared dead wire
+	VerifCtxDeadID    = -2 // a dead pipe made for a done context (or any unregistered wire)
+)
+
+// ---- trace recorder ----
+
+func VerifTraceStart() {
+	verifRec.mu.Lock()
+	verifRec.on = true
+	verifRec.evs = nil
+	verifRec.mu.Unlock()
+}
+
+func VerifTraceStop() []VerifEvent {
+	verifRec.mu.Lock()
+	verifRec.on = false
+	evs := verifRec.evs
+	verifRec.evs = nil
+	verifRec.mu.Unlock()
+	return evs
+}
+
+// VerifEmit records a harness-level event (kinds >= 100 are reserved for the harness).
+func VerifEmit(kind, a, b int) { verifEv(kind, a, b) }
+
+func VerifSetYield(f func(kind, a int)) {
+	if f == nil {
+		f = func(int, int) {}
+	}
+	verifYieldFn.Store(f)
+}
+
+func VerifWithTid(ctx context.Context, tid int) context.Context {
+	return context.WithValue(ctx, verifTidKey{}, tid)
+}
+
+const (
+	VerifEvAcqPark  = evAcqPark
+	VerifEvMakeDone = evMakeDone
+)
+
+// ---- commands and results carrying an integer id ----
+
+func VerifCmd(id int) Completed {
+	return cmds.NewCompleted([]string{"GET", strconv.Itoa(id)})
+}
+
+func VerifCmdID(m Completed) int {
+	c := m.Commands()
+	if len(c) < 2 {
+		return -1
+	}
+	n, err := strconv.Atoi(c[1])
+	if err != nil {
+		return -1
+	}
+	return n
+}
+
+func VerifResult(id int) RedisResult {
+	return RedisResult{val: strmsg('+', strconv.Itoa(id))}
+}
+
+func VerifResultID(r RedisResult) int {
+	s, err := r.ToString()
+	if err != nil {
+		return -1
+	}
+	n, err := strconv.Atoi(s)
+	if err != nil {
+		return -1
+	}
+	return n
+}
+
+// ---- queue (ring / flowBuffer) ----
+
+type VerifQueue struct {
+	q     queue
+	Slots int
+}
+
+// NewVerifRing builds a ring with 2^factor slots whose three counters start at `start`
+// (start near 2^32 exercises the uint32 wrap of the tickets).
+func NewVerifRing(factor int, start uint32) *VerifQueue {
+	r := newRing(factor)
+	r.write, r.read1, r.read2 = start, start, start
+	for i := range r.store {
+		verifChans.Store(r.store[i].ch, i)
+	}
+	return &VerifQueue{q: r, Slots: len(r.store)}
+}
+
+// NewVerifFlow builds a flowBuffer with 2^factor tokens; token channels are numbered in the
+// order they sit in the free list.
+func NewVerifFlow(factor int) *VerifQueue {
+	b := newFlowBuffer(factor)
+	n := len(b.f)
+	for i := 0; i < n; i++ {
+		c := <-b.f
+		verifChans.Store(c.ch, i)
+		b.f <- c
+	}
+	return &VerifQueue{q: b, Slots: n}
+}
+
+func (v *VerifQueue) Forget() {
+	switch q := v.q.(type) {
+	case *ring:
+		for i := range q.store {
+			verifChans.Delete(q.store[i].ch)
+		}
+	case *flowBuffer:
+		verifChans.Range(func(k, _ any) bool { verifChans.Delete(k); return true })
+	}
+}
+
+func (v *VerifQueue) PutOne(ctx context.Context, m Completed) (chan RedisResult, error) {
+	return v.q.PutOne(ctx, m)
+}
+
+func (v *VerifQueue) PutMulti(ctx context.Context, m []Completed, resps []RedisResult) (chan RedisResult, error) {
+	return v.q.PutMulti(ctx, m, resps)
+}
+
+func (v *VerifQueue) NextWriteCmd() (Completed, []Completed, chan RedisResult) {
+	return v.q.NextWriteCmd()
+}
+
+func (v *VerifQueue) WaitForWrite() (Completed, []Completed, chan RedisResult) {
+	return v.q.WaitForWrite()
+}
+
+func (v *VerifQueue) NextResultCh() (Completed, []Completed, chan RedisResult, []RedisResult) {
+	return v.q.NextResultCh()
+}
+
+func (v *VerifQueue) FinishResult() { v.q.FinishResult() }
+
+func VerifChanID(ch chan RedisResult) int { return verifChID(ch) }
+
+// ---- pool ----
+
+var errVerifWire = errors.New("verif wire broken")
+
+// VerifWire is a wire for driving the pool directly: only the methods the pool calls are
+// implemented (StopTimer, ResetTimer, Error, Close); the embedded interface is nil.
+type VerifWire struct {
+	wire
+	id     int
+	broken atomic.Bool
+	nostop atomic.Bool
+	closes atomic.Int32
+}
+
+func NewVerifWire(id int, broken, nostop bool) *VerifWire {
+	w := &VerifWire{id: id}
+	w.broken.Store(broken)
+	w.nostop.Store(nostop)
+	return w
+}
+
+func (w *VerifWire) StopTimer() bool  { return !w.nostop.Load() }
+func (w *VerifWire) ResetTimer() bool { return true }
+func (w *VerifWire) Error() error {
+	if w.broken.Load() {
+		return errVerifWire
+	}
+	return nil
+}
+func (w *VerifWire) Close()         { w.broken.Store(true); w.closes.Add(1) }
+func (w *VerifWire) ID() int        { return w.id }
+func (w *VerifWire) Break()         { w.broken.Store(true) }
+func (w *VerifWire) Expire()        { w.nostop.Store(true); w.broken.Store(true) }
+func (w *VerifWire) Closes() int    { return int(w.closes.Load()) }
+func (w *VerifWire) IsBroken() bool { return w.broken.Load() }
+func (w *VerifWire) CantStop() bool { return w.nostop.Load() }
+
+// VerifHeld is what Acquire handed out.
+type VerifHeld struct {
+	w wire
+}
+
+func (h VerifHeld) ID() int { return verifWid(h.w) }
+func (h VerifHeld) Err() error {
+	return h.w.Error()
+}
+func (h VerifHeld) Wire() *VerifWire {
+	if v, ok := h.w.(*VerifWire); ok {
+		return v
+	}
+	return nil
+}
+func (h VerifHeld) Close() { h.w.Close() }
+
+type VerifPool struct {
+	p    *pool
+	dead *pipe
+}
+
+// NewVerifPool builds a pool; makeFn returns nil to model a failed dial the way mux does
+// (the shared dead wire is handed to the pool).
+func NewVerifPool(cap int, cleanup time.Duration, minSize int, makeFn func(ctx context.Context) *VerifWire) *VerifPool {
+	dead := deadFn()
+	verifWires.Store(wire(dead), VerifSharedDeadID)
+	vp := &VerifPool{dead: dead}
+	vp.p = newPool(cap, dead, cleanup, minSize, func(ctx context.Context) wire {
+		if w := makeFn(ctx); w != nil {
+			return w
+		}
+		return dead
+	})
+	return vp
+}
+
+func (v *VerifPool) Forget()                               { verifWires.Delete(wire(v.dead)) }
+func (v *VerifPool) Acquire(ctx context.Context) VerifHeld { return VerifHeld{w: v.p.Acquire(ctx)} }
+func (v *VerifPool) Store(h VerifHeld)                     { v.p.Store(h.w) }
+func (v *VerifPool) Close()                                { v.p.Close() }
+func (v *VerifPool) RemoveIdle()                           { v.p.removeIdleConns() }
+
+// Locked runs fn while holding the pool mutex (used to make environment transitions of idle
+// wires and context cancellations atomic with respect to the pool's critical sections).
+func (v *VerifPool) Locked(fn func()) {
+	v.p.cond.L.Lock()
+	defer v.p.cond.L.Unlock()
+	fn()
+}
+
+// LockedIdle runs fn with the idle wires (bottom of the stack first) while holding the pool mutex.
+func (v *VerifPool) LockedIdle(fn func(idle []*VerifWire)) {
+	v.p.cond.L.Lock()
+	defer v.p.cond.L.Unlock()
+	ws := make([]*VerifWire, 0, len(v.p.list))
+	for _, w := range v.p.list {
+		if vw, ok := w.(*VerifWire); ok {
+			ws = append(ws, vw)
+		}
+	}
+	fn(ws)
+}
+
+// Snapshot returns size, len(list), down and the ids of the idle wires (bottom of the stack first).
+func (v *VerifPool) Snapshot() (size int, idle []int, down bool) {
+	v.p.cond.L.Lock()
+	defer v.p.cond.L.Unlock()
+	for _, w := range v.p.list {
+		idle = append(idle, verifWid(w))
+	}
+	return v.p.size, idle, v.p.down
+}
+
+// ---- DoStream / DoMultiStream through a real mux (D7) ----
+
+// VerifStreamLeakScenario builds a mux whose dial only returns when the context is done (a dial
+// that outlives the caller's deadline), calls DoStream / DoMultiStream `rounds` times with a short
+// deadline and reports the size of the streaming pool after each call, whether a later
+// acquisition with a live context could not get a slot, and the errors the calls returned.
+func VerifStreamLeakScenario(multi bool, rounds int) (sizes []int, blocked bool, errs []string) {
+	dial := func(ctx context.Context, _ string, _ *ClientOption) (net.Conn, error) {
+		<-ctx.Done()
+		return nil, ctx.Err()
+	}
+	m := makeMux("", &ClientOption{BlockingPoolSize: 1, DisableAutoPipelining: true}, dial)
+	defer m.Close()
+	for i := 0; i < rounds; i++ {
+		ctx, cancel := context.WithTimeout(context.Background(), 2*time.Millisecond)
+		var s RedisResultStream
+		if multi {
+			s = m.DoMultiStream(ctx, VerifCmd(1), VerifCmd(2))
+		} else {
+			s = m.DoStream(ctx, VerifCmd(1))
+		}
+		cancel()
+		if e := s.Error(); e != nil {
+			errs = append(errs, e.Error())
+		} else {
+			errs = append(errs, "")
+		}
+		m.spool.cond.L.Lock()
+		sizes = append(sizes, m.spool.size)
+		m.spool.cond.L.Unlock()
+	}
+	ctx, cancel := context.WithTimeout(context.Background(), 200*time.Millisecond)
+	defer cancel()
+	start := time.Now()
+	w := m.spool.Acquire(ctx)
+	// with a free slot the acquisition reaches the dial at once; it is "blocked" when it spent its
+	// whole deadline waiting for a slot and never dialled
+	blocked = w != m.dead && errors.Is(w.Error(), context.DeadlineExceeded) && time.Since(start) >= 150*time.Millisecond
+	m.spool.Store(w)
+	return sizes, blocked, errs
+}
